@@ -222,6 +222,24 @@ pub fn one_op(env: &Env, r: &mut Rng, viol: &mut Vec<String>, stats: &mut Vec<St
     }
 }
 
+/// a connection may be moved to / shared with another thread exactly when the interface's objects may
+pub fn auto_trait_case() -> Vec<String> {
+    let mut out = Vec::new();
+    for (name, conn_send, conn_sync, obj_send, obj_sync) in crate::abitraits::auto_trait_table() {
+        out.push("#stat op-auto-traits 1".into());
+        if conn_sync && !obj_sync {
+            out.push(format!("!C16 connection-shareable-although-interface-is-not-sync interface={}", name));
+        }
+        if conn_send && !obj_send {
+            out.push(format!("!C16 connection-sendable-although-interface-is-not-send interface={}", name));
+        }
+        if (obj_sync && !conn_sync) || (obj_send && !conn_send) {
+            out.push(format!("#stat auto-traits-narrower-than-interface-{} 1", name));
+        }
+    }
+    out
+}
+
 /// compile-time sized aggregates through a connection and directly
 pub fn shapes_case(r: &mut Rng) -> Vec<String> {
     use crate::abitraits::{Shapes, ShapesImpl};
@@ -266,6 +284,9 @@ pub fn vals_cases(r: &mut Rng, n: usize, ops: usize) -> Vec<String> {
             out.push(format!("#stat refused-interface-{} 1", probe.trim_matches(|c| c == '(' || c == ')').split(' ').next().unwrap_or("")));
         }
         out.extend(shapes_case(r));
+        if i == 0 {
+            out.extend(auto_trait_case());
+        }
         let env = match new_env() {
             Ok(e) => e,
             Err(e) => {
